@@ -13,7 +13,7 @@ EXTENDS MCRevocation, IOUtils
 
 TraceLog == ndJsonDeserialize(IOEnv.VERIF_TRACE)
 NoV == [c |-> "-", n |-> "-", v |-> "-"]
-NoS == [list |-> NoList, signer |-> "-", left |-> 0, bits |-> {}, sigok |-> TRUE]
+NoS == [list |-> NoList, signer |-> "-", left |-> 0, bits |-> {}, sigok |-> TRUE, need |-> {}]
 
 VARIABLES
     l,      \* next line of the log
@@ -29,9 +29,9 @@ IsEvent(e) == l <= Len(TraceLog) /\ Ev.ev = e /\ l' = l + 1
 SetOf(s) == {s[k] : k \in 1..Len(s)}
 
 NoServe == tS' = NoS /\ UNCHANGED <<srv, mono>>
-\* r: the "served" record of the log, ls: the list it is a version of
-Served(r, ls) ==
-    /\ tS' = [list |-> ls, signer |-> r.signer, left |-> r.left, bits |-> SetOf(r.bits), sigok |-> r.sigok]
+\* r: the "served" record of the log, ls: the list it is a version of, need: the bits the issuer had set when the GET began
+Served(r, ls, need) ==
+    /\ tS' = [list |-> ls, signer |-> r.signer, left |-> r.left, bits |-> SetOf(r.bits), sigok |-> r.sigok, need |-> need]
     /\ srv' = [srv EXCEPT ![ls] = SetOf(r.bits)]
     /\ mono' = (mono /\ srv[ls] \subseteq SetOf(r.bits))
 
@@ -42,6 +42,7 @@ TReset ==
     /\ pages' = [i \in Issuers |-> <<>>] /\ revoked' = {}
     /\ known' = [n \in Nodes |-> {}] /\ cache' = [n \in Nodes |-> [ls \in Lists |-> NoCopy]]
     /\ ticks' = 0 /\ forges' = 0 /\ must' = [n \in Nodes |-> {}]
+    /\ spc' = [s \in Servers |-> "idle"] /\ ssnap' = [s \in Servers |-> [list |-> NoList, bits |-> {}]]
     /\ UNCHANGED <<epc, esnap, hist>>
     /\ tV' = NoV /\ tS' = NoS /\ srv' = [ls \in Lists |-> {}] /\ mono' = TRUE
 
@@ -60,11 +61,21 @@ TRevokeNet ==
 TTick == IsEvent("tick") /\ Tick /\ tV' = NoV /\ NoServe
 TServe ==
     /\ IsEvent("serve") /\ Serve(<<Ev.i, Ev.p>>)
-    /\ Served(Ev, <<Ev.i, Ev.p>>) /\ tV' = NoV
+    /\ Served(Ev, <<Ev.i, Ev.p>>, Pg(<<Ev.i, Ev.p>>).bits) /\ tV' = NoV
+\* the GET stopped before its transaction (res = "resign") or returned the stored list (res = "cached")
+TServeBegin ==
+    /\ IsEvent("serve.begin") /\ ServeBegin(Ev.s, <<Ev.i, Ev.p>>)
+    /\ (Ev.res = "resign") <=> NeedsResign(<<Ev.i, Ev.p>>)
+    /\ IF "served" \in DOMAIN Ev THEN Served(Ev.served, <<Ev.i, Ev.p>>, Pg(<<Ev.i, Ev.p>>).bits) ELSE NoServe
+    /\ tV' = NoV
+\* .. and went on after other operations: it owes the bits that were set when it began
+TServeEnd ==
+    /\ IsEvent("serve.end") /\ ServeResign(Ev.s)
+    /\ Served(Ev.served, ssnap[Ev.s].list, ssnap[Ev.s].bits) /\ tV' = NoV
 \* res: a revocation of the credential is in the node's store afterwards
 TDeliver ==
     /\ IsEvent("deliver")
-    /\ DeliverObs(Ev.c, Ev.k, Ev.n, Ev.res)
+    /\ DeliverObs(Ev.c, Ev.k, Ev.r, Ev.n, Ev.res)
     /\ (Ev.res \/ Ev.c \notin known[Ev.n])
     /\ tV' = NoV /\ NoServe
 \* the issuer comparison (F15) is made or not, whichever explains the observed verdict; default: the constant
@@ -79,14 +90,15 @@ TVerify ==
     /\ tV' = [c |-> Ev.c, n |-> Ev.n, v |-> Ev.verdict]
     /\ IF "served" \in DOMAIN Ev
        THEN /\ Produced(cred[Ev.c].list, Ev.src) = <<Ev.served.i, Ev.served.p>>
-            /\ Served(Ev.served, <<Ev.served.i, Ev.served.p>>)
+            /\ Served(Ev.served, <<Ev.served.i, Ev.served.p>>, Pg(<<Ev.served.i, Ev.served.p>>).bits)
        ELSE /\ (Ev.fetched => Produced(cred[Ev.c].list, Ev.src) = NoList)
             /\ NoServe
 TVerifyLocal ==
     /\ IsEvent("verify.local") /\ VerifyLocal(Ev.c)
     /\ tV' = [c |-> Ev.c, n |-> "local", v |-> Ev.verdict] /\ NoServe
 
-TraceNext == TReset \/ TIssue \/ TRevokeStatus \/ TRevokeNet \/ TTick \/ TServe \/ TDeliver \/ TVerify \/ TVerifyLocal
+TraceNext == TReset \/ TIssue \/ TRevokeStatus \/ TRevokeNet \/ TTick \/ TServe \/ TServeBegin \/ TServeEnd \/ TDeliver \/ TVerify
+             \/ TVerifyLocal
 TraceInit == Init /\ l = 1 /\ tV = NoV /\ tS = NoS /\ srv = [ls \in Lists |-> {}] /\ mono = TRUE /\ TLCSet(1, 1)
 TraceSpec == TraceInit /\ [][TraceNext]_tvars
 
@@ -98,10 +110,11 @@ T_RevokedIsPermanent == (tV # NoV /\ tV.c \in MustOfT(tV.n)) => tV.v = "revoked"
 T_IssuerOnly == /\ (tV # NoV /\ tV.v = "revoked") => Revocable(tV.c)
                 /\ \A n \in Nodes : known[n] \subseteq revoked       \* known: as observed (revocation found in the node's store)
 T_ServedListValidAndFresh == tS # NoS => (tS.signer = tS.list[1] /\ tS.sigok /\ tS.left > MinLeft)
-T_BitsMonotone == mono
+\* a set bit is never cleared: no bit of the previous served version is missing, nor one the issuer had set when the GET began
+T_BitsMonotone == mono /\ tS.need \subseteq tS.bits
 \* drift (spec and code disagree on something the property does not demand)
 VerdictAsModel == tV # NoV => tV.v = (IF tV.n = "local" THEN LocalVerdict(tV.c) ELSE CurVerdict(tV.c, tV.n))
-ServedAsModel == tS # NoS => (Exists(tS.list) /\ tS.bits = Pg(tS.list).bits /\ tS.left = Pg(tS.list).left)
+ServedAsModel == tS # NoS => (Exists(tS.list) /\ tS.bits = Pg(tS.list).stored /\ tS.left = Pg(tS.list).left)
 
 \* acceptance: the whole file was consumed (high-water mark kept in a TLC register; -workers 1)
 Progress == TLCSet(1, IF l > TLCGet(1) THEN l ELSE TLCGet(1))
